@@ -70,14 +70,14 @@ Qed.
 (* from_litvec of the all-true literals *)
 Definition all_true (Q : list var) : pm := fun x => if mem_var x Q then Some true else None.
 
-Lemma from_litvec_ok n : forall Q m0,
+Lemma from_litvec_ok n : forall (Q : list var) m0,
   (forall q, In q Q -> N.to_nat q < n) ->
   exists m, fold_left (fun acc l =>
                match acc with
                | None => None
                | Some m => if Nat.ltb (N.to_nat (fst l)) n
                            then Some (pm_set m (fst l) (snd l)) else None
-               end) (map (fun x => (x, true)) Q) (Some m0) = Some m /\
+               end) (map (fun x : var => (x, true)) Q) (Some m0) = Some m /\
             forall x, m x = if mem_var x Q then Some true else m0 x.
 Proof.
   induction Q as [|q Q IH]; intros m0 Hn; simpl.
@@ -89,8 +89,8 @@ Proof.
     rewrite (N.eqb_sym x q). destruct (N.eqb q x); simpl; auto. destruct (mem_var x Q); auto.
 Qed.
 
-Lemma from_litvec_all_true n Q : (forall q, In q Q -> N.to_nat q < n) ->
-  exists m, pm_from_litvec (map (fun x => (x, true)) Q) n = Some m /\ forall x, m x = all_true Q x.
+Lemma from_litvec_all_true n (Q : list var) : (forall q, In q Q -> N.to_nat q < n) ->
+  exists m, pm_from_litvec (map (fun x : var => (x, true)) Q) n = Some m /\ forall x, m x = all_true Q x.
 Proof.
   intros Hn. destruct (from_litvec_ok n Q pm_empty Hn) as (m & E & Hm). exists m. split; [exact E|].
   intros x. rewrite Hm. unfold all_true, pm_empty. reflexivity.
@@ -761,3 +761,464 @@ Proof.
         rewrite (Hy v Hnv), upd_same; rewrite ?xorb_assoc; reflexivity.
 Qed.
 End Sem.
+
+(* ===================================================================================== *)
+(* 5. instances                                                                            *)
+Local Open Scope Qc_scope.
+
+Lemma qgt_true a b : qgt a b = true <-> b < a.
+Proof.
+  unfold qgt. destruct (qcmp_spec a b) as [E|L|G]; split; intros H; try discriminate; auto.
+  - subst. exfalso. exact (qclt_irrefl _ H).
+  - exfalso. exact (qclt_irrefl _ (Qclt_trans _ _ _ L H)).
+Qed.
+Lemma qgt_false a b : qgt a b = false <-> a <= b.
+Proof.
+  unfold qgt. destruct (qcmp_spec a b) as [E|L|G]; split; intros H; try discriminate; auto.
+  - subst. apply Qcle_refl.
+  - apply Qclt_le_weak; auto.
+  - exfalso. exact (Qcle_not_lt _ _ H G).
+Qed.
+Lemma qmax_le a b : qmax a b = b <-> a <= b.
+Proof.
+  unfold qmax. destruct (qcmp_spec a b) as [E|L|G]; split; intros H; auto.
+  - subst. apply Qcle_refl.
+  - apply Qclt_le_weak; auto.
+  - subst. exfalso. exact (qclt_irrefl _ G).
+  - exfalso. exact (Qcle_not_lt _ _ H G).
+Qed.
+Lemma qmax_ge_l a b : a <= qmax a b.
+Proof.
+  unfold qmax. destruct (qcmp_spec a b) as [E|L|G]; try apply Qcle_refl. apply Qclt_le_weak; auto.
+Qed.
+Lemma qmax_ge_r a b : b <= qmax a b.
+Proof.
+  unfold qmax. destruct (qcmp_spec a b) as [E|L|G]; try apply Qcle_refl.
+  - subst. apply Qcle_refl.
+  - apply Qclt_le_weak; auto.
+Qed.
+Lemma qmax_cases a b : qmax a b = a \/ qmax a b = b.
+Proof. unfold qmax. destruct (a ?= b); auto. Qed.
+Lemma qeq_true a b : qeq a b = true <-> a = b.
+Proof.
+  unfold qeq. destruct (qcmp_spec a b) as [E|L|G]; split; intros H; try discriminate; auto.
+  - subst. exfalso. exact (qclt_irrefl _ L).
+  - subst. exfalso. exact (qclt_irrefl _ G).
+Qed.
+Lemma qc_0_le_1 : 0 <= 1.
+Proof. unfold Qcle, Qle. simpl. lia. Qed.
+Lemma qc_mul_mono w x y : 0 <= w -> x <= y -> w * x <= w * y.
+Proof. intros Hw H. rewrite (Qcmult_comm w x), (Qcmult_comm w y). apply Qcmult_le_compat_r; auto. Qed.
+Lemma qc_nn_mul a b : 0 <= a -> 0 <= b -> 0 <= a * b.
+Proof. intros Ha Hb. replace 0 with (0 * b) by ring. apply Qcmult_le_compat_r; auto. Qed.
+Lemma qc_unit_mul a b : 0 <= a -> 0 <= b -> a <= 1 -> b <= 1 -> a * b <= 1.
+Proof.
+  intros Ha Hb Ha1 Hb1. apply Qcle_trans with (1 * b).
+  - apply Qcmult_le_compat_r; auto.
+  - replace (1 * b) with b by ring. auto.
+Qed.
+Lemma qc_le_total a b : a <= b \/ b <= a.
+Proof. destruct (Qclt_le_dec a b) as [H|H]; auto. left. apply Qclt_le_weak; auto. Qed.
+
+(* --- RealSemiring: the order is <=, non-negative = 0 <= x, choose = join = max --- *)
+Definition rnn (x : Qc) : Prop := 0 <= x.
+Lemma real_pre_iff a b : pre real_choose a b <-> a <= b.
+Proof. unfold pre, real_choose, real_join. apply qmax_le. Qed.
+
+Ltac real_laws :=
+  first
+    [ exact Qcplus_comm | exact (fun a b c => eq_sym (Qcplus_assoc a b c))
+    | exact (fun a b c => eq_sym (Qcmult_assoc a b c)) | exact Qcmult_comm
+    | exact Qcmult_1_r | exact (fun a : Qc => Qcmult_0_r a) | exact (fun a : Qc => Qcplus_0_r a)
+    | exact Qcmult_plus_distr_r
+    | exact Qcle_refl | exact Qcle_trans | exact Qcplus_le_compat | exact qc_mul_mono
+    | exact qmax_ge_l | exact qmax_ge_r | exact qc_0_le_1 | exact qc_nn_mul | exact qc_unit_mul
+    | (intros a b; rewrite !real_pre_iff; apply qc_le_total)
+    | (intros a b c; rewrite !real_pre_iff; apply Qcle_trans)
+    | exact qmax_cases
+    | exact qeq_true
+    | (intros a b H; apply real_le_join in H; tauto)
+    | (intros a b H; apply real_pre_iff; apply qgt_false; exact H)
+    | (intros a b H; apply real_pre_iff; apply Qclt_le_weak; apply qgt_true; exact H)
+    | (intros a b H; apply real_pre_iff; exact H) ].
+
+(* the model's functions are the generic ones *)
+Lemma marginal_map_h_searchA n wlo whi p : forall vars lb best cur,
+  marginal_map_h_m n wlo whi p lb best vars cur =
+  searchA qgt (marginal_map_eval_m n wlo whi p) lb best vars cur.
+Proof. reflexivity. Qed.
+
+Lemma marginal_map_eval_ubw n wlo whi p m rest :
+  marginal_map_eval_m n wlo whi p m rest = ubw Qcplus Qcmult 0 1 qmax wlo whi n p m rest.
+Proof.
+  unfold marginal_map_eval_m.
+  rewrite <- (ubw_post Qcplus Qcmult 0 1 qmax).
+  all: try real_laws.
+  unfold litprod. apply fold_left_ext. intros v [x []]; reflexivity.
+Qed.
+
+Lemma bb_h_searchB {T} (o : bb_ops T) n wlo whi p : forall vars lb best cur,
+  bb_h_m o n wlo whi p lb best vars cur =
+  searchB (bb_choose o) (bb_le o) (bb_eq o) (bb_ub_m o n wlo whi p) lb best vars cur.
+Proof. reflexivity. Qed.
+
+Lemma bb_ub_ubw {T} (o : bb_ops T) n wlo whi p m rest :
+  (forall a b c, sr_mul (bb_sr o) (sr_mul (bb_sr o) a b) c = sr_mul (bb_sr o) a (sr_mul (bb_sr o) b c)) ->
+  (forall a b, sr_mul (bb_sr o) a b = sr_mul (bb_sr o) b a) ->
+  (forall a, sr_mul (bb_sr o) a (sr_one (bb_sr o)) = a) ->
+  bb_ub_m o n wlo whi p m rest =
+  ubw (sr_add (bb_sr o)) (sr_mul (bb_sr o)) (sr_zero (bb_sr o)) (sr_one (bb_sr o)) (bb_join o) wlo whi n p m rest.
+Proof.
+  intros MA MC M1. unfold bb_ub_m.
+  rewrite <- (ubw_pre (sr_add (bb_sr o)) (sr_mul (bb_sr o)) (sr_zero (bb_sr o)) (sr_one (bb_sr o)) (bb_join o) MA MC M1).
+  f_equal. unfold litprod. apply fold_left_ext. intros v [x []]; reflexivity.
+Qed.
+
+(* the objective of marginal MAP and of bb over the real semiring: the weights of the chosen
+   literals of the query variables times the sum, over all assignments of the other variables, of
+   the products of their literal weights, restricted to the models of the function *)
+Definition mm_value (wlo whi : var -> Qc) (p : bdd) (Q others : list var) (a : asg) : Qc :=
+  prodS Qcmult 1 wlo whi a Q * wmc_spec Qc Qcplus Qcmult 0 1 wlo whi others (den p) a.
+
+Section RealOpt.
+Variable n : nat.
+Variables wlo whi : var -> Qc.
+Variable p : bdd.
+Variables Q others : list var.
+Hypothesis HF : free_bdd p.
+Hypothesis NDQ : NoDup Q.
+Hypothesis NDO : NoDup others.
+Hypothesis DISJ : forall x, In x Q -> ~ In x others.
+Hypothesis SUP : forall u, In u (support p) -> In u Q \/ In u others.
+Hypothesis HQn : forall q, In q Q -> (N.to_nat q < n)%nat.
+(* probability weights: every weight in [0,1]; low + high = 1 on the non-query variables *)
+Hypothesis WQ : forall q, In q Q -> 0 <= wlo q <= 1 /\ 0 <= whi q <= 1.
+Hypothesis WO : forall v, In v others -> wlo v + whi v = 1 /\ 0 <= wlo v /\ 0 <= whi v.
+
+Lemma real_unitQ : forall q b, In q Q -> rnn (wsel wlo whi q b) /\ wsel wlo whi q b <= 1.
+Proof. intros q b Hq. destruct (WQ q Hq) as [[? ?] [? ?]]. destruct b; simpl; split; assumption. Qed.
+Lemma real_nnO : forall v, In v (support p) -> ~ In v Q -> rnn (wlo v) /\ rnn (whi v).
+Proof. intros v Hv Hn. destruct (SUP v Hv) as [|H]; [contradiction|]. destruct (WO v H) as (_ & ? & ?). split; assumption. Qed.
+
+Lemma Vw_mm_value a : Vw Qcplus Qcmult 0 1 wlo whi Q p a = mm_value wlo whi p Q others a.
+Proof.
+  unfold Vw, mm_value. f_equal.
+  rewrite (vfold_spec Qcplus Qcmult 0 1) with (others := others);
+    [apply wmc_spec_local; intros y _; apply xorb_false_l|..]; auto; try real_laws.
+  intros v Hv. apply WO; auto.
+Qed.
+
+(* leaf_value_exact: with every query variable assigned, marginal_map_eval is the objective *)
+Theorem mm_leaf_value_exact m a : Inv Q m [] -> agrees m a ->
+  marginal_map_eval_m n wlo whi p m [] = mm_value wlo whi p Q others a.
+Proof.
+  intros I Ha. rewrite marginal_map_eval_ubw, <- Vw_mm_value.
+  apply (ubw_leaf Qcplus Qcmult 0 1 qmax); auto; real_laws.
+Qed.
+
+(* ub_is_upper_bound: the bound of a partial assignment dominates every completion *)
+Theorem mm_ub_is_upper_bound m rest a : Inv Q m rest -> agrees m a ->
+  mm_value wlo whi p Q others a <= marginal_map_eval_m n wlo whi p m rest.
+Proof.
+  intros I Ha. rewrite marginal_map_eval_ubw, <- Vw_mm_value.
+  apply (ubw_upper Qcplus Qcmult 0 1 qmax) with (cle := Qcle) (nn := rnn); auto;
+    try real_laws; auto using real_unitQ, real_nnO.
+Qed.
+
+Theorem bb_real_leaf_value_exact m a : Inv Q m [] -> agrees m a ->
+  bb_ub_m real_bb n wlo whi p m [] = mm_value wlo whi p Q others a.
+Proof.
+  intros I Ha. rewrite bb_ub_ubw by real_laws. rewrite <- Vw_mm_value.
+  apply (ubw_leaf Qcplus Qcmult 0 1 qmax); auto; real_laws.
+Qed.
+Theorem bb_real_ub_is_upper_bound m rest a : Inv Q m rest -> agrees m a ->
+  mm_value wlo whi p Q others a <= bb_ub_m real_bb n wlo whi p m rest.
+Proof.
+  intros I Ha. rewrite bb_ub_ubw by real_laws. rewrite <- Vw_mm_value.
+  apply (ubw_upper Qcplus Qcmult 0 1 qmax) with (cle := Qcle) (nn := rnn); auto;
+    try real_laws; auto using real_unitQ, real_nnO.
+Qed.
+
+(* bnb_optimal, marginal MAP *)
+Theorem marginal_map_optimal :
+  exists v pi, marginal_map_m n wlo whi p Q = Some (v, pi) /\
+    (forall x, pi x <> None <-> In x Q) /\
+    v = mm_value wlo whi p Q others (asg_of pi) /\
+    forall a, mm_value wlo whi p Q others a <= v.
+Proof.
+  destruct (from_litvec_all_true n Q HQn) as (m0 & E0 & Hm0).
+  unfold marginal_map_m. rewrite E0.
+  set (r := marginal_map_h_m n wlo whi p (marginal_map_eval_m n wlo whi p m0 []) m0 Q pm_empty).
+  exists (fst r), (snd r). split; [destruct r; reflexivity|].
+  assert (R := searchA_weighted Qcplus Qcmult 0 1 qmax real_choose qgt).
+  specialize R with (cle := Qcle) (nn := rnn) (wlo := wlo) (whi := whi) (Q := Q) (n := n) (p := p)
+                    (ub := marginal_map_eval_m n wlo whi p) (m0 := m0).
+  destruct R as (R1 & R2 & R3); auto; try real_laws; auto using real_unitQ, real_nnO.
+  { intros m rest. apply marginal_map_eval_ubw. }
+  change (searchA qgt (marginal_map_eval_m n wlo whi p) (marginal_map_eval_m n wlo whi p m0 []) m0 Q pm_empty)
+    with r in R1, R2, R3. split; [exact R2|]. split.
+  - rewrite <- Vw_mm_value. exact R1.
+  - intros a. rewrite <- Vw_mm_value. apply real_pre_iff. apply R3.
+Qed.
+
+(* bnb_optimal, generic branch and bound over the real semiring *)
+Theorem bb_real_optimal :
+  exists v pi, bb_real_m n wlo whi p Q = Some (v, pi) /\
+    (forall x, pi x <> None <-> In x Q) /\
+    v = mm_value wlo whi p Q others (asg_of pi) /\
+    forall a, mm_value wlo whi p Q others a <= v.
+Proof.
+  destruct (from_litvec_all_true n Q HQn) as (m0 & E0 & Hm0).
+  unfold bb_real_m, bb_m. rewrite E0.
+  set (r := bb_h_m real_bb n wlo whi p (bb_ub_m real_bb n wlo whi p m0 []) m0 Q pm_empty).
+  exists (fst r), (snd r). split; [destruct r; reflexivity|].
+  assert (R := searchB_weighted Qcplus Qcmult 0 1 qmax real_choose real_le qeq).
+  specialize R with (cle := Qcle) (nn := rnn) (wlo := wlo) (whi := whi) (Q := Q) (n := n) (p := p)
+                    (ub := bb_ub_m real_bb n wlo whi p) (m0 := m0).
+  destruct R as (R1 & R2 & R3); auto; try real_laws; auto using real_unitQ, real_nnO.
+  { intros m rest. apply (bb_ub_ubw real_bb); real_laws. }
+  change (searchB real_choose real_le qeq (bb_ub_m real_bb n wlo whi p) (bb_ub_m real_bb n wlo whi p m0 []) m0 Q pm_empty)
+    with r in R1, R2, R3. split; [exact R2|]. split.
+  - rewrite <- Vw_mm_value. exact R1.
+  - intros a. rewrite <- Vw_mm_value. apply real_pre_iff. apply R3.
+Qed.
+End RealOpt.
+
+(* ===================================================================================== *)
+(* 4 (b). arbitrary weights: the dependency-restricted sum                                 *)
+Local Close Scope Qc_scope.
+Local Open Scope nat_scope.
+
+(* all assignments of the listed variables over a base assignment *)
+Fixpoint all_asg (vs : list var) (x : asg) : list asg :=
+  match vs with
+  | [] => [x]
+  | v :: t => all_asg t (upd x v false) ++ all_asg t (upd x v true)
+  end.
+(* does f, with the variables outside v :: vs fixed by x, depend on v? *)
+Definition depends_b (vs : list var) (f : asg -> bool) (x : asg) (v : var) : bool :=
+  existsb (fun y => xorb (f (upd y v false)) (f (upd y v true))) (all_asg vs x).
+(* the query variables take the values of a, the others those of y *)
+Definition mix (Q : list var) (a y : asg) : asg := fun u => if mem_var u Q then a u else y u.
+
+Lemma all_asg_out vs : forall x y, In y (all_asg vs x) -> forall u, ~ In u vs -> y u = x u.
+Proof.
+  induction vs as [|v t IH]; intros x y Hy u Hu; simpl in Hy.
+  - destruct Hy as [<-|[]]. reflexivity.
+  - apply in_app_or in Hy. destruct Hy as [Hy|Hy]; rewrite (IH _ _ Hy u) by (simpl in Hu; tauto);
+      unfold upd; destruct (N.eqb_spec u v); auto; subst; simpl in Hu; tauto.
+Qed.
+Lemma all_asg_complete vs : forall x y, (forall u, ~ In u vs -> y u = x u) ->
+  exists y', In y' (all_asg vs x) /\ forall u, y' u = y u.
+Proof.
+  induction vs as [|v t IH]; intros x y Hy; simpl.
+  - exists x. split; auto. intros u. symmetry. apply Hy. intros [].
+  - destruct (IH (upd x v (y v)) y) as (y' & Hin & Heq).
+    { intros u Hu. unfold upd. destruct (N.eqb_spec u v) as [->|Hne]; auto.
+      apply Hy. simpl. intros [H|H]; [congruence|contradiction]. }
+    exists y'. split; auto. apply in_or_app. destruct (y v); auto.
+Qed.
+Lemma existsb_ext_in {A} (f g : A -> bool) l : (forall x, In x l -> f x = g x) -> existsb f l = existsb g l.
+Proof. induction l as [|x l IH]; simpl; intros H; auto. rewrite H, IH; auto. Qed.
+Lemma existsb_false_in {A} (f : A -> bool) l x : existsb f l = false -> In x l -> f x = false.
+Proof.
+  intros E Hin. destruct (f x) eqn:F; auto. assert (existsb f l = true) by (apply existsb_exists; eauto). congruence.
+Qed.
+
+Lemma depends_false vs f x v : ext_fun f -> depends_b vs f x v = false ->
+  forall y, (forall u, ~ In u vs -> u <> v -> y u = x u) -> f (upd y v false) = f (upd y v true).
+Proof.
+  intros E D y Hy.
+  destruct (all_asg_complete vs x (upd y v (x v))) as (y' & Hin & Heq).
+  { intros u Hu. unfold upd. destruct (N.eqb_spec u v) as [->|Hne]; auto. }
+  pose proof (existsb_false_in _ _ _ D Hin) as X. cbv beta in X. apply xorb_eq in X.
+  assert (U : forall b u, upd y v b u = upd y' v b u).
+  { intros b u. unfold upd. destruct (N.eqb_spec u v) as [->|Hne]; auto.
+    rewrite Heq. unfold upd. destruct (N.eqb_spec u v); congruence. }
+  rewrite (E _ _ (U false)), (E _ _ (U true)). exact X.
+Qed.
+Lemma depends_indep vs f x v : (forall y, f (upd y v false) = f (upd y v true)) -> depends_b vs f x v = false.
+Proof.
+  intros H. unfold depends_b. induction (all_asg vs x) as [|y l IH]; simpl; auto.
+  rewrite H, xorb_nilpotent. exact IH.
+Qed.
+Lemma depends_local vs f g x v : (forall y, (forall u, ~ In u (v :: vs) -> y u = x u) -> f y = g y) ->
+  depends_b vs f x v = depends_b vs g x v.
+Proof.
+  intros H. unfold depends_b. apply existsb_ext_in. intros y Hy.
+  assert (A : forall b u, ~ In u (v :: vs) -> upd y v b u = x u).
+  { intros b u Hu. unfold upd. destruct (N.eqb_spec u v) as [->|Hne]; [simpl in Hu; tauto|].
+    apply (all_asg_out vs x y Hy). simpl in Hu; tauto. }
+  rewrite (H _ (A false)), (H _ (A true)). reflexivity.
+Qed.
+
+Section Dep.
+Context {T : Type}.
+Variables (add mul : T -> T -> T) (zero one : T).
+Hypothesis mul_comm : forall a b, mul a b = mul b a.
+Hypothesis mul_one_r : forall a, mul a one = a.
+Hypothesis distr_l : forall a b c, mul a (add b c) = add (mul a b) (mul a c).
+Variable wlo whi : var -> T.
+
+(* recursion over the variables in order, branching only on those the sub-function depends on:
+   the unsmoothed count of the ROBDD of f under that order *)
+Fixpoint wmc_dep (vs : list var) (f : asg -> bool) (x : asg) : T :=
+  match vs with
+  | [] => if f x then one else zero
+  | v :: t =>
+    if depends_b t f x v
+    then add (mul (wlo v) (wmc_dep t f (upd x v false))) (mul (whi v) (wmc_dep t f (upd x v true)))
+    else wmc_dep t f (upd x v false)
+  end.
+
+Lemma wmc_dep_local : forall vs f g x,
+  (forall y, (forall u, ~ In u vs -> y u = x u) -> f y = g y) -> wmc_dep vs f x = wmc_dep vs g x.
+Proof.
+  induction vs as [|v t IH]; intros f g x H; simpl.
+  - rewrite (H x); auto.
+  - rewrite (depends_local t f g x v H).
+    assert (A : forall b y, (forall u, ~ In u t -> y u = upd x v b u) -> f y = g y).
+    { intros b y Hy. apply H. intros u Hu. rewrite Hy by (simpl in Hu; tauto).
+      unfold upd. destruct (N.eqb_spec u v); auto. subst; simpl in Hu; tauto. }
+    rewrite (IH f g (upd x v false) (A false)), (IH f g (upd x v true) (A true)). reflexivity.
+Qed.
+
+Variable level : var -> nat.
+Hypothesis level_inj : forall u v, level u = level v -> u = v.
+Variable Q : list var.
+Variable a : asg.
+
+Fixpoint lsorted (vs : list var) : Prop :=
+  match vs with [] => True | v :: t => (forall u, In u t -> level v < level u) /\ lsorted t end.
+
+Notation vf := (vfold add mul zero one wlo whi Q a).
+Definition Fr (c : bool) (p : bdd) : asg -> bool := fun y => xorb c (den p (mix Q a y)).
+
+Lemma Fr_ext c p : ext_fun (Fr c p).
+Proof.
+  intros y y' H. unfold Fr. f_equal. apply den_agree. intros u _. unfold mix. destruct (mem_var u Q); auto.
+Qed.
+
+Lemma Fr_skip c p v y b b' : ~ In v (support p) -> Fr c p (upd y v b) = Fr c p (upd y v b').
+Proof.
+  intros Hv. unfold Fr. f_equal. apply den_agree. intros u Hu. unfold mix, upd.
+  destruct (mem_var u Q); auto. destruct (N.eqb_spec u v); [subst; contradiction|reflexivity].
+Qed.
+
+(* THE THEOREM (leaf value, arbitrary weights): for an ordered reduced diagram, if every
+   non-query variable whose weights do not add up to one is ordered after all query variables,
+   the value fold of a total assignment a of the query variables is the dependency-restricted
+   sum of the function restricted by a. *)
+Theorem vfold_dep : forall vs, lsorted vs -> forall p c k x,
+  wfb level k p -> (forall u, In u (support p) -> In u vs) ->
+  (forall v, In v vs -> ~ In v Q ->
+     add (wlo v) (whi v) = one \/ forall q, In q Q -> level q < level v) ->
+  vf c p = wmc_dep vs (Fr c p) x.
+Proof.
+  unfold vfold.
+  induction vs as [|v t IH]; intros LS p c k x W SUP NORM.
+  - destruct p as [| |c' v' lo hi].
+    + simpl. unfold Fr. simpl. destruct c; reflexivity.
+    + simpl. unfold Fr. simpl. destruct c; reflexivity.
+    + exfalso. apply (SUP v'). simpl; auto.
+  - destruct LS as [LT LS'].
+    assert (Hvt : ~ In v t) by (intros H; specialize (LT v H); lia).
+    assert (NORM' : forall u, In u t -> ~ In u Q ->
+                add (wlo u) (whi u) = one \/ forall q, In q Q -> level q < level u).
+    { intros u Hu. apply NORM. simpl; auto. }
+    assert (KEY : forall q cc kk x', wfb level kk q -> (forall u, In u (support q) -> In u t) ->
+              bdd_fold_c (vstep add mul wlo whi Q a) zero one cc q = wmc_dep t (Fr cc q) x').
+    { intros q cc kk x' Wq Sq. apply (IH LS' q cc kk x' Wq Sq NORM'). }
+    assert (SKIP : forall q cc kk, wfb level kk q -> (forall u, In u (support q) -> In u (v :: t)) ->
+              ~ In v (support q) ->
+              bdd_fold_c (vstep add mul wlo whi Q a) zero one cc q = wmc_dep (v :: t) (Fr cc q) x).
+    { intros q cc kk Wq Sq Hv. cbn [wmc_dep].
+      rewrite depends_indep by (intros y; apply Fr_skip; exact Hv).
+      apply (KEY q cc kk _ Wq). intros u Hu. destruct (Sq u Hu) as [<-|]; [contradiction|assumption]. }
+    destruct p as [| |c' v' lo hi].
+    + apply (SKIP BT c k); simpl; auto.
+    + apply (SKIP BF c k); simpl; auto.
+    + destruct (N.eq_dec v' v) as [->|NE].
+      * (* the node tests v *)
+        pose proof W as W'. simpl in W'. destruct W' as (Hk & Wlo & Whi & Hne & _).
+        assert (Slo : forall u, In u (support lo) -> In u t).
+        { intros u Hu. destruct (SUP u) as [<-|]; auto. { simpl. right. apply in_or_app; auto. }
+          pose proof (wfb_support_ge level _ _ Wlo _ Hu). lia. }
+        assert (Shi : forall u, In u (support hi) -> In u t).
+        { intros u Hu. destruct (SUP u) as [<-|]; auto. { simpl. right. apply in_or_app; auto. }
+          pose proof (wfb_support_ge level _ _ Whi _ Hu). lia. }
+        assert (Nlo : ~ In v (support lo)) by (intros H; apply Hvt; auto).
+        assert (Nhi : ~ In v (support hi)) by (intros H; apply Hvt; auto).
+        cbn [bdd_fold_c]. unfold vstep at 1.
+        destruct (mem_var v Q) eqn:Eq.
+        -- (* a query variable: the restricted function does not depend on it *)
+           assert (Hm : forall y, mix Q a y v = a v) by (intros y; unfold mix; rewrite Eq; reflexivity).
+           cbn [wmc_dep]. rewrite depends_indep.
+           2:{ intros y. unfold Fr. f_equal. apply den_agree. intros u _. unfold mix, upd.
+               destruct (mem_var u Q) eqn:Eu; auto. destruct (N.eqb_spec u v); auto. subst. congruence. }
+           destruct (a v) eqn:Eav.
+           ++ rewrite (KEY hi (xorb c c') _ (upd x v false) Whi Shi). apply wmc_dep_local. intros y _.
+              unfold Fr. cbn [den]. rewrite Hm, xorb_assoc. reflexivity.
+           ++ rewrite (KEY lo (xorb c c') _ (upd x v false) Wlo Slo). apply wmc_dep_local. intros y _.
+              unfold Fr. cbn [den]. rewrite Hm, xorb_assoc. reflexivity.
+        -- (* a summed variable *)
+           assert (Hm : forall y, mix Q a y v = y v) by (intros y; unfold mix; rewrite Eq; reflexivity).
+           apply mem_var_nIn in Eq.
+           assert (Blo : forall y, (forall u, ~ In u t -> y u = upd x v false u) ->
+                     Fr c (BN c' v lo hi) y = Fr (xorb c c') lo y).
+           { intros y Hy. unfold Fr. cbn [den]. rewrite Hm, (Hy v Hvt), upd_same, xorb_assoc. reflexivity. }
+           assert (Bhi : forall y, (forall u, ~ In u t -> y u = upd x v true u) ->
+                     Fr c (BN c' v lo hi) y = Fr (xorb c c') hi y).
+           { intros y Hy. unfold Fr. cbn [den]. rewrite Hm, (Hy v Hvt), upd_same, xorb_assoc. reflexivity. }
+           cbn [wmc_dep]. destruct (depends_b t (Fr c (BN c' v lo hi)) x v) eqn:D.
+           ++ rewrite (KEY lo (xorb c c') _ (upd x v false) Wlo Slo), (KEY hi (xorb c c') _ (upd x v true) Whi Shi).
+              rewrite (wmc_dep_local t _ _ (upd x v false) Blo), (wmc_dep_local t _ _ (upd x v true) Bhi).
+              reflexivity.
+           ++ (* the restricted function does not depend on v although the node tests it *)
+              assert (EQ : forall y, (forall u, ~ In u (v :: t) -> y u = x u) ->
+                        Fr (xorb c c') lo y = Fr (xorb c c') hi y).
+              { intros y Hy.
+                assert (Hy' : forall u, ~ In u t -> u <> v -> y u = x u).
+                { intros u H1 H2. apply Hy. simpl. intros [H|H]; [congruence|contradiction]. }
+                pose proof (depends_false t _ x v (Fr_ext _ _) D y Hy') as X.
+                unfold Fr in X. cbn [den] in X. rewrite !Hm, !upd_same in X.
+                rewrite <- !xorb_assoc in X.
+                fold (Fr (xorb c c') lo (upd y v false)) in X. fold (Fr (xorb c c') hi (upd y v true)) in X.
+                assert (Ey : forall u, y u = upd y v (y v) u).
+                { intros u. unfold upd. destruct (N.eqb_spec u v); congruence. }
+                rewrite (Fr_ext _ lo _ _ Ey), (Fr_ext _ hi _ _ Ey).
+                rewrite (Fr_skip _ lo v y (y v) false Nlo), (Fr_skip _ hi v y (y v) true Nhi). exact X. }
+              destruct (NORM v (or_introl eq_refl) Eq) as [Nv|After].
+              ** rewrite (KEY lo (xorb c c') _ (upd x v false) Wlo Slo), (KEY hi (xorb c c') _ (upd x v false) Whi Shi).
+                 assert (E2 : wmc_dep t (Fr (xorb c c') hi) (upd x v false) = wmc_dep t (Fr (xorb c c') lo) (upd x v false)).
+                 { apply wmc_dep_local. intros y Hy. symmetry. apply EQ. intros u Hu.
+                   rewrite Hy by (simpl in Hu; tauto). unfold upd. destruct (N.eqb_spec u v); auto.
+                   subst; simpl in Hu; tauto. }
+                 rewrite E2.
+                 rewrite (mul_comm (wlo v)), (mul_comm (whi v)), <- distr_l, Nv, mul_one_r.
+                 symmetry. apply wmc_dep_local. exact Blo.
+              ** (* v is ordered after every query variable: lo and hi denote the same function *)
+                 exfalso. apply Hne.
+                 assert (NQ : forall q u, wfb level (S (level v)) q -> In u (support q) -> mem_var u Q = false).
+                 { intros q u Wq Hu. apply mem_var_nIn. intros HQ.
+                   pose proof (wfb_support_ge level _ _ Wq _ Hu). specialize (After u HQ). lia. }
+                 apply (bdd_canonical level level_inj lo hi (S (level v)) Wlo Whi). intros y.
+                 set (y' := fun u => if mem_var u t then y u else x u).
+                 assert (Hy' : forall u, ~ In u (v :: t) -> y' u = x u).
+                 { intros u Hu. unfold y'. destruct (mem_var u t) eqn:E; auto. apply mem_var_In in E. simpl in Hu; tauto. }
+                 pose proof (EQ y' Hy') as X. unfold Fr in X.
+                 assert (Dlo : den lo (mix Q a y') = den lo y).
+                 { apply den_agree. intros u Hu. unfold mix. rewrite (NQ lo u Wlo Hu). unfold y'.
+                   rewrite (proj2 (mem_var_In u t) (Slo u Hu)). reflexivity. }
+                 assert (Dhi : den hi (mix Q a y') = den hi y).
+                 { apply den_agree. intros u Hu. unfold mix. rewrite (NQ hi u Whi Hu). unfold y'.
+                   rewrite (proj2 (mem_var_In u t) (Shi u Hu)). reflexivity. }
+                 rewrite Dlo, Dhi in X. destruct (xorb c c'), (den lo y), (den hi y); simpl in X; congruence.
+      * (* the node tests a later variable *)
+        apply (SKIP _ c k W SUP). intros Hv.
+        pose proof W as W'. simpl in W'. destruct W' as (Hk & Wlo & Whi & Hrest).
+        assert (W2 : wfb level (level v') (BN c' v' lo hi)) by (simpl; auto).
+        pose proof (wfb_support_ge level _ _ W2 _ Hv) as G.
+        destruct (SUP v') as [E|Hin]; [simpl; auto|congruence|]. specialize (LT v' Hin). lia.
+Qed.
+End Dep.
